@@ -2024,6 +2024,12 @@ func (ls *LState) Resume(th *LState, fn *LFunction, args ...LValue) (ResumeState
 	if ls.G.CurrentThread == th {
 		return ResumeError, newApiErrorS(ApiErrorRun, "can not resume a running thread"), nil
 	}
+	for p := ls; p != nil; p = p.Parent {
+		if p.Parent == th {
+			// th is waiting for the running coroutine (directly or not) to yield
+			return ResumeError, newApiErrorS(ApiErrorRun, "can not resume a non-suspended thread"), nil
+		}
+	}
 	if th.Dead {
 		return ResumeError, newApiErrorS(ApiErrorRun, "can not resume a dead thread"), nil
 	}
